@@ -56,11 +56,20 @@ impl Ntv2Grid {
             // The NTv2 spec does not guarantee the order of subgrids, so we must create
             // a lookup table from parent to children to make it possible for `find_grid` to
             // have a start point for working out which subgrid, if any, contains the point
-            subgrids.insert(name.clone(), grid);
+            // With two sub grids of the same name, the parent/child lookup in `find_grid`
+            // would find the grid to be its own child, and never terminate
+            if subgrids.insert(name.clone(), grid).is_some() {
+                return Err(Error::Invalid(format!("Duplicate sub grid name: {name}")));
+            }
             lookup_table
                 .entry(parent)
                 .or_insert_with(Vec::new)
                 .push(name);
+        }
+
+        // `find_grid` starts from the root grid(s), i.e. those without a parent
+        if !lookup_table.contains_key("NONE") {
+            return Err(Error::Invalid("No root grid (PARENT = NONE)".to_string()));
         }
 
         Ok(Self {
